@@ -3,6 +3,25 @@
 (*   Spec / FairSpec   every interleaving of environment and SDK steps       *)
 (*   SettledSpec       environment steps only in settled states: the seam-   *)
 (*                     level graph the harness can realise (transition cover)*)
+(*                                                                         *)
+(* Configurations (NSess, CC, Nest, NCN/NSN, MaxFaults, FaultKinds, Holds,   *)
+(* Combos) and measured sizes (distinct states):                             *)
+(*   mc_q1  1, {1},   {1}, 0/0, 1, FCore, none, F      7 821   safety        *)
+(*   mc_q2  1, {1,2}, {},  0/0, 1, FAll,  none, F     34 015   safety        *)
+(*   mc_q3  2, {1},   {},  0/0, 1, FCore, none, F     39 962   safety        *)
+(*   mc_q4  1, {1},   {},  1/1, 1, FCore, none, T    114 466   safety        *)
+(*   mc_t1  1, {1},   {1}, 1/1, 1, FCore, none, F    820 560   safety        *)
+(*   mc_t2  2, {1},   {},  0/0, 1, FAll,  none, F     56 237   safety        *)
+(*   mc_t3  1, {1},   {},  0/0, 1, FCore, both, F      4 439   safety        *)
+(*   live1  = mc_q1, live2 = mc_q3 under FairSpec: C05_Terminates,           *)
+(*          C01_CallsEndOnBreak (weak fairness of the SDK's steps and of the *)
+(*          environment's debts)                                             *)
+(*   lead_route / lead_async / lead_noclose / lead_inject: a sensitivity     *)
+(*          switch (Bug, or HandsAll with Inject) is on: TLC must find the   *)
+(*          violation; ideal_inject: HandsAll = FALSE, Inject enabled: holds *)
+(*   cover_a..g: SettledSpec with VIEW CoverView (544 - 21 927 states): the  *)
+(*          seam-level graphs whose environment edges are covered by paths   *)
+(*   gen    2, {1,2}, {1,2}, 2/2, 3, FAll, both, T: -simulate (SSESatGen)    *)
 EXTENDS SSESat
 
 C1 == {1}
